@@ -175,18 +175,9 @@ def rule_b(ctx):
     ctx.check(okc, "C16-B", "strikeout:filter-removed-before-closing-affix", es.span, es.id,
               "the strikeout filter must be removed before the decorator's closing affix is written")
     # the filter only appends U+0336 after chars, never alters them
-    fts = F.one("filter_text_strikeout")
-    pushes = fts.calls(lambda cd, t: ends(cd, "String::push"))
-    kinds = []
-    for bb, t in pushes:
-        k = op_const(t["args"][1])
-        if k is not None:
-            kinds.append(k.get("int"))
-        else:
-            at = fts.atoms(t["args"][1])
-            kinds.append("char-from-input" if has_call(at, "Iterator>::next", "Iterator::next") else "?")
-    ctx.check(sorted(map(str, kinds)) == sorted(["char-from-input", str(0x336)]), "C16-B",
-              "strikeout-filter:input-char-then-U+0336", fts.span, fts.id, "pushes: %s" % kinds)
+    from .C15 import strikeout_filter_shape
+    problems, fts = strikeout_filter_shape(F)
+    ctx.check(not problems, "C16-B", "strikeout-filter:input-char-then-U+0336", fts.span, fts.id, "; ".join(problems))
 
 
 def string_consts(b):
